@@ -485,6 +485,22 @@ func runC25Child(seed uint64, stats string, mode string) {
 		os.WriteFile(stats, b, 0644)
 	}
 	save()
+	if mode == "firsttouch-restart" {
+		// all the caches that are cold only after a restart, a few rounds each
+		for _, kind := range c25RestartKinds {
+			c25FirstTouchRestart(seed, res, kind, 6)
+			save()
+		}
+		res.Done = true
+		save()
+		return
+	}
+	if strings.HasPrefix(mode, "firsttouch-") {
+		c25FirstTouchRestart(seed, res, strings.TrimPrefix(mode, "firsttouch-"), 14)
+		res.Done = true
+		save()
+		return
+	}
 	if mode == "firsttouch" {
 		c25FirstTouch(seed, res)
 		res.Done = true
@@ -665,6 +681,301 @@ func c25FirstTouch(seed uint64, res *c25Result) {
 	wg.Wait()
 }
 
+// c25FirstTouchRestart: the same race for the caches that are only cold after a restart (their keys exist
+// in the committed tree): every round restarts the node, then delivers transactions whose FIRST access to
+// a cached object is a mutation, while a query for that object is served.
+//
+//		frozen: Lock transactions to a due block that already holds committed funds (FrozenFunds.AddFund ->
+//		        GetOrNew(height).addFund) against the Frozen handler (GetFrozenFunds(height) for every height of
+//		        the unbond window); afterwards the funds at that height must be all the accepted locks.
+//		coins:  MintToken against CoinInfoById; afterwards the token volume must be the sum of the accepted mints.
+//		waitlist: Unbond of a part of a waitlisted stake (genesis waitlist) against the WaitList handler; afterwards
+//		        the waitlisted value must be what is left.
+//
+//	  symbolinfo: EditCoinOwner against CoinInfoById (GetSymbolInfo); afterwards the ticker owner must be the new one.
+//	  symbols: RecreateToken against CoinInfo by symbol (GetCoinBySymbol); afterwards the ticker must resolve to the new coin.
+//
+// Every mismatch is confirmed on a private state opened at the committed height (what the tree holds).
+var c25RestartKinds = []string{"frozen", "coins", "waitlist", "symbolinfo", "symbols"}
+
+// c25LostKey: the finding key of a lost update found by the restart scenario of the given kind
+var c25LostKey = map[string]string{"frozen": "c25-lost-update:frozenfunds", "coins": "c25-lost-update:coins", "waitlist": "c25-lost-update:waitlist",
+	"symbolinfo": "c25-lost-update:coins.symbolinfo", "symbols": "c25-lost-update:coins.symbols"}
+
+func c25FirstTouchRestart(seed uint64, res *c25Result, kind string, rounds int) {
+	r := NewRng(seed)
+	spec := &GenesisSpec{NAccounts: 8, Balance: pip(100000000), NVals: 3}
+	if kind == "waitlist" {
+		spec.Mutate = func(st *types.AppState) {
+			for _, a := range st.Accounts {
+				st.Waitlist = append(st.Waitlist, types.Waitlist{CandidateID: 1, Owner: a.Address, Coin: 0, Value: pip(1000).String()})
+			}
+		}
+	}
+	n := newNode(spec)
+	defer n.Cleanup()
+	var progress int64
+	limit := 5 * time.Second
+	if raceEnabled {
+		limit = 10 * time.Second
+	}
+	stopWatch := c25Watchdog(&progress, limit, res, func() {
+		c25ResMu.Lock()
+		b, _ := json.MarshalIndent(res, "", " ")
+		c25ResMu.Unlock()
+		os.WriteFile(os.Getenv("C25_RESULT_FILE"), b, 0644)
+	})
+	defer stopWatch()
+	spinMax := 300 // microseconds
+	if raceEnabled {
+		spinMax = 3000
+	}
+	K := len(n.Accts)
+	// setup
+	due := make([]uint32, K)        // frozen: the due block of account k
+	expected := make([]*big.Int, K) // frozen: sum locked at due[k]; coins: volume of token k
+	count := make([]int, K)         // frozen: number of funds at due[k]
+	tokens := make([]types.CoinID, K)
+	syms := make([]types.CoinSymbol, K)
+	owner := make([]int, K) // symbolinfo/symbols: index of the account owning ticker k
+	{
+		var txs [][]byte
+		for k := 0; k < K; k++ {
+			expected[k] = big.NewInt(0)
+			if kind == "frozen" {
+				due[k] = uint32(n.Height) + 150 + uint32(k)
+				v := pip(int64(1 + r.Intn(5)))
+				txs = append(txs, n.MkTx(n.Accts[k], transaction.TypeLock, transaction.LockData{DueBlock: due[k], Coin: 0, Value: v}, 0, 0, 1, nil))
+				expected[k].Add(expected[k], v)
+				count[k]++
+			} else if kind == "waitlist" {
+				expected[k] = pip(1000)
+				// (a transaction per account, so that the setup block is the same for every kind)
+				txs = append(txs, n.MkTx(n.Accts[k], transaction.TypeSend, transaction.SendData{Coin: 0, To: n.Accts[(k+1)%K].Addr, Value: Z(1)}, 0, 0, 1, nil))
+			} else {
+				var sym types.CoinSymbol
+				copy(sym[:], []byte(fmt.Sprintf("FTC%05d", k)))
+				syms[k], owner[k] = sym, k
+				amt := pip(1000)
+				txs = append(txs, n.MkTx(n.Accts[k], transaction.TypeCreateToken, transaction.CreateTokenData{Name: "t", Symbol: sym, InitialAmount: amt,
+					MaxSupply: new(big.Int).Mul(amt, Z(1000000)), Mintable: true, Burnable: true}, 0, 0, 1, nil))
+				expected[k].Add(expected[k], amt)
+			}
+		}
+		br := n.Block(txs, nil)
+		for k, t := range br.Txs {
+			if t.Code != 0 {
+				c25ResMu.Lock()
+				res.ExecPanics = append(res.ExecPanics, fmt.Sprintf("first-touch setup transaction %d rejected: code %d %s", k, t.Code, t.Log))
+				c25ResMu.Unlock()
+				return
+			}
+			if kind == "coins" || kind == "symbolinfo" || kind == "symbols" {
+				var id int
+				fmt.Sscan(t.Tags["tx.coin_id"], &id)
+				tokens[k] = types.CoinID(id)
+			}
+		}
+	}
+	for round := 0; round < rounds; round++ {
+		atomic.AddInt64(&progress, 1)
+		n.Restart() // every cache is cold again
+		svc := service.NewService(n.App, nil, nil, n.Cfg, "verif", n.App.RewardCounter())
+		var target, gen int64
+		var stop int32
+		var wg sync.WaitGroup
+		nq := 3
+		if os.Getenv("C25_NOQUERY") != "" {
+			nq = 0 // calibration: the same scenario without any query must report nothing
+		}
+		for g := 0; g < nq; g++ {
+			wg.Add(1)
+			go func(g int) {
+				defer wg.Done()
+				rr := NewRng(seed ^ uint64(977*(round+1)+g))
+				last := int64(0)
+				for atomic.LoadInt32(&stop) == 0 {
+					cur := atomic.LoadInt64(&gen)
+					if cur == last {
+						runtime.Gosched()
+						continue
+					}
+					last = cur
+					k := int(atomic.LoadInt64(&target))
+					d := time.Duration(rr.Intn(spinMax)) * time.Microsecond
+					for t0 := time.Now(); time.Since(t0) < d; {
+					}
+					func() {
+						defer func() { recover() }()
+						if kind == "frozen" {
+							svc.Frozen(context.Background(), &pb.FrozenRequest{Address: n.Accts[k].Addr.String()})
+						} else if kind == "waitlist" {
+							svc.WaitList(context.Background(), &pb.WaitListRequest{Address: n.Accts[k].Addr.String()})
+						} else if kind == "symbols" {
+							svc.CoinInfo(context.Background(), &pb.CoinInfoRequest{Symbol: syms[k].String()})
+						} else {
+							svc.CoinInfoById(context.Background(), &pb.CoinIdRequest{Id: uint64(tokens[k])})
+						}
+					}()
+				}
+			}(g)
+		}
+		var txs [][]byte
+		vals := make([]*big.Int, K)
+		for k := 0; k < K; k++ {
+			vals[k] = new(big.Int).Add(r.BigBelow(pip(3)), Z(1))
+			if kind == "frozen" {
+				txs = append(txs, n.MkTx(n.Accts[k], transaction.TypeLock, transaction.LockData{DueBlock: due[k], Coin: 0, Value: vals[k]}, 0, 0, 1, nil))
+			} else if kind == "waitlist" {
+				txs = append(txs, n.MkTx(n.Accts[k], transaction.TypeUnbond, transaction.UnbondDataV3{PubKey: n.Vals[0].Pub, Coin: 0, Value: vals[k]}, 0, 0, 1, nil))
+			} else if kind == "symbolinfo" {
+				// the ticker goes to the next account; the sender of transaction k is account k only in round 0,
+				// so every account signs exactly one transaction per block
+				txs = append(txs, n.MkTx(n.Accts[owner[k]], transaction.TypeEditCoinOwner, transaction.EditCoinOwnerData{Symbol: syms[k], NewOwner: n.Accts[(owner[k]+1)%K].Addr}, 0, 0, 1, nil))
+			} else if kind == "symbols" {
+				txs = append(txs, n.MkTx(n.Accts[k], transaction.TypeRecreateToken, transaction.RecreateTokenData{Name: "r", Symbol: syms[k], InitialAmount: pip(1000),
+					MaxSupply: pip(1000000), Mintable: true, Burnable: true}, 0, 0, 1, nil))
+			} else {
+				txs = append(txs, n.MkTx(n.Accts[k], transaction.TypeMintToken, transaction.MintTokenData{Coin: tokens[k], Value: vals[k]}, 0, 0, 1, nil))
+			}
+		}
+		br := n.Block(txs, &BlockOpts{PreTx: func(i int, raw []byte) {
+			atomic.AddInt64(&progress, 1)
+			atomic.StoreInt64(&target, int64(i))
+			atomic.AddInt64(&gen, 1)
+		}})
+		atomic.StoreInt32(&stop, 1)
+		wg.Wait()
+		if br.Panic != "" {
+			c25ResMu.Lock()
+			res.ExecPanics = append(res.ExecPanics, br.Panic)
+			c25ResMu.Unlock()
+			return
+		}
+		for k := 0; k < K && k < len(br.Txs); k++ {
+			c25ResMu.Lock()
+			res.FirstTouch++
+			c25ResMu.Unlock()
+			if br.Txs[k].Code != 0 {
+				continue
+			}
+			if kind == "symbolinfo" || kind == "symbols" {
+				live := n.App.CurrentState()
+				cs, err := n.App.GetStateForHeight(uint64(n.Height))
+				if kind == "symbolinfo" {
+					want := n.Accts[(owner[k]+1)%K].Addr
+					owner[k] = (owner[k] + 1) % K
+					got := live.Coins().GetSymbolInfo(syms[k]).OwnerAddress()
+					committed := "?"
+					if err == nil {
+						committed = cs.Coins().GetSymbolInfo(syms[k]).OwnerAddress().String()
+					}
+					if got == nil || *got != want || committed != want.String() {
+						c25ResMu.Lock()
+						res.LostUpdates = append(res.LostUpdates, kind+"|"+fmt.Sprintf("height %d (round %d after a restart): EditCoinOwner of %s to %s accepted (code 0); the owner is %v (committed tree: %s)", n.Height, round, syms[k].String(), want.String(), got, committed))
+						c25ResMu.Unlock()
+						// continue with whoever owns the ticker now
+						for i := range n.Accts {
+							if got != nil && n.Accts[i].Addr == *got {
+								owner[k] = i
+							}
+						}
+					}
+				} else {
+					var id int
+					fmt.Sscan(br.Txs[k].Tags["tx.coin_id"], &id)
+					got := live.Coins().GetCoinBySymbol(syms[k], 0)
+					committed := "?"
+					if err == nil {
+						if c := cs.Coins().GetCoinBySymbol(syms[k], 0); c != nil {
+							committed = c.ID().String()
+						} else {
+							committed = "none"
+						}
+					}
+					if got == nil || int(got.ID()) != id || committed != fmt.Sprint(id) {
+						gotID := "none"
+						if got != nil {
+							gotID = got.ID().String()
+						}
+						c25ResMu.Lock()
+						res.LostUpdates = append(res.LostUpdates, kind+"|"+fmt.Sprintf("height %d (round %d after a restart): RecreateToken of %s accepted (code 0) as coin %d; the ticker resolves to coin %s (committed tree: %s)", n.Height, round, syms[k].String(), id, gotID, committed))
+						c25ResMu.Unlock()
+					}
+				}
+				continue
+			}
+			if kind == "waitlist" {
+				expected[k].Sub(expected[k], vals[k])
+			} else {
+				expected[k].Add(expected[k], vals[k])
+			}
+			count[k]++
+			// read the object from the live state and from a private state opened at the committed height
+			read := func(frozenOf func(uint64) []*big.Int, volumeOf func(types.CoinID) *big.Int, waitOf func(types.Address) *big.Int) *big.Int {
+				switch kind {
+				case "frozen":
+					t := big.NewInt(0)
+					for _, v := range frozenOf(uint64(due[k])) {
+						t.Add(t, v)
+					}
+					return t
+				case "waitlist":
+					return waitOf(n.Accts[k].Addr)
+				}
+				return volumeOf(tokens[k])
+			}
+			live := n.App.CurrentState()
+			got := read(func(h uint64) (vs []*big.Int) {
+				if ff := live.FrozenFunds().GetFrozenFunds(h); ff != nil {
+					for _, f := range ff.List {
+						vs = append(vs, f.Value)
+					}
+				}
+				return
+			}, func(c types.CoinID) *big.Int { return live.Coins().GetCoin(c).Volume() }, func(a types.Address) *big.Int {
+				if it := live.WaitList().Get(a, n.Vals[0].Pub, 0); it != nil {
+					return it.Value
+				}
+				return big.NewInt(0)
+			})
+			committed := "?"
+			if cs, err := n.App.GetStateForHeight(uint64(n.Height)); err == nil {
+				cs.Candidates().LoadCandidates()
+				committed = read(func(h uint64) (vs []*big.Int) {
+					if ff := cs.FrozenFunds().GetFrozenFunds(h); ff != nil {
+						for _, f := range ff.List {
+							vs = append(vs, f.Value)
+						}
+					}
+					return
+				}, func(c types.CoinID) *big.Int { return cs.Coins().GetCoin(c).Volume() }, func(a types.Address) *big.Int {
+					if it := cs.WaitList().Get(a, n.Vals[0].Pub, 0); it != nil {
+						return it.Value
+					}
+					return big.NewInt(0)
+				}).String()
+			}
+			var what string
+			switch kind {
+			case "frozen":
+				what = fmt.Sprintf("height %d (round %d after a restart): Lock of %s pip until block %d accepted (code 0); the frozen funds at block %d are worth %s (committed tree: %s), expected %s", n.Height, round, vals[k], due[k], due[k], got, committed, expected[k])
+			case "waitlist":
+				what = fmt.Sprintf("height %d (round %d after a restart): Unbond of %s pip from the waitlist of %s accepted (code 0); the waitlisted value is %s (committed tree: %s), expected %s", n.Height, round, vals[k], n.Accts[k].Addr.String(), got, committed, expected[k])
+			default:
+				what = fmt.Sprintf("height %d (round %d after a restart): MintToken of %s of coin %d accepted (code 0); volume is %s (committed tree: %s), expected %s", n.Height, round, vals[k], tokens[k], got, committed, expected[k])
+			}
+			if got.Cmp(expected[k]) != 0 {
+				c25ResMu.Lock()
+				res.LostUpdates = append(res.LostUpdates, kind+"|"+what)
+				c25ResMu.Unlock()
+				// continue from what the node has, so that one loss is reported once
+				expected[k] = new(big.Int).Set(got)
+			}
+		}
+	}
+}
+
 // ---- parent ----------------------------------------------------------------------------------------
 
 var raceFrameRe = regexp.MustCompile(`^\s+(/\S+\.go):(\d+)`)
@@ -703,7 +1014,7 @@ func parseRaceLog(text string) [][5]string {
 		}
 		type acc struct {
 			owner, site string
-			hazard     string // why this access can crash the node or perturb block execution ("" = it cannot)
+			hazard      string // why this access can crash the node or perturb block execution ("" = it cannot)
 		}
 		var accs []acc
 		var cur acc
@@ -940,6 +1251,10 @@ func runC25(seed uint64, n int, out, stats string, args []string) {
 			}
 		}
 		for _, l := range res.LostUpdates {
+			if i := strings.Index(l, "|"); i > 0 && c25LostKey[l[:i]] != "" {
+				add(c25LostKey[l[:i]], "C25: a query served while the first transaction after a restart touched the same cached object made the transaction's effect disappear from the committed state (non-atomic cache fill: the query's freshly loaded copy replaced the object block execution had modified): "+l[i+1:], replay)
+				continue
+			}
 			add("c25-lost-update", "C25: a balance query concurrent with the first credit of an address made the credit disappear (non-atomic cache fill in Accounts.get): "+l, replay)
 		}
 		return &res
@@ -975,6 +1290,10 @@ func runC25(seed uint64, n int, out, stats string, args []string) {
 	for i := 0; i < 1+n/4; i++ {
 		res := runChild(seed*7919+uint64(i), "firsttouch", i)
 		ft += res.FirstTouch
+		// 4. the same race on the caches that are cold only after a restart (coins, ticker lists and owners,
+		// waitlist, frozen funds): restart, then a query against the first transaction touching the object
+		res = runChild(seed*7927+uint64(i), "firsttouch-restart", i)
+		ft += res.FirstTouch
 	}
 	rk := []string{}
 	for k, v := range raceCount {
@@ -987,7 +1306,7 @@ func runC25(seed uint64, n int, out, stats string, args []string) {
 	}
 	sort.Strings(bk)
 	writeStats(stats, &Stats{Property: "C25", Seed: seed, Cases: n, Ops: txs, NonTrivial: nontriv,
-		Rule: "each case: a seeded history (18-25 blocks, 0-6 txs per block weighted towards pools, limit orders, trades, candidates, delegations; absences) generated on the real node (run alone) and replayed on a second node while 4 goroutines call the real api/v2/service handlers (address(es), candidate(s), coin info, swap pool(s)/provider, limit orders, best trade, estimates, frozen, waitlist, commission/votes, status values, private-state export, historical requests) on the live state; compared: app hashes, DeliverTx responses, validator updates, emission; in a -race build a data-race report is a failure when a query goroutine writes or when either access is a map operation (reports in which block execution writes a plain field that a query reads are recorded as unsynchronised_query_reads: they can neither stop the process nor change what the executor computes); plus a targeted first-touch scenario (balance queries racing the first credit of fresh addresses) and the static lock-discipline table; non-trivial = accepted transactions and served queries; histories distinct by seed",
+		Rule: "each case: a seeded history (18-25 blocks, 0-6 txs per block weighted towards pools, limit orders, trades, candidates, delegations; absences) generated on the real node (run alone) and replayed on a second node while 4 goroutines call the real api/v2/service handlers (address(es), candidate(s), coin info, swap pool(s)/provider, limit orders, best trade, estimates, frozen, waitlist, commission/votes, status values, private-state export, historical requests) on the live state; compared: app hashes, DeliverTx responses, validator updates, emission; in a -race build a data-race report is a failure when a query goroutine writes or when either access is a map operation (reports in which block execution writes a plain field that a query reads are recorded as unsynchronised_query_reads: they can neither stop the process nor change what the executor computes); plus targeted first-touch scenarios (balance queries racing the first credit of fresh addresses; after a restart, coin / ticker / waitlist / frozen-funds queries racing the first transaction that touches the object) and the static lock-discipline table; non-trivial = accepted transactions and served queries; histories distinct by seed",
 		Dist: dist, Samples: samples, Monitor: mon,
 		Extra: map[string]interface{}{"race_build": raceEnabled, "blocks": blocks, "txs": txs, "accepted_txs": accepted, "queries": queries, "query_errors": qerrs,
 			"race_reports": rk, "unsynchronised_query_reads": bk, "static_unguarded_sites": nStatic, "first_touch_cases": ft, "query_panics_recovered": queryPanics, "race_reports_without_node_frames": racesIgnored}})
